@@ -59,7 +59,7 @@ PatSet(p) ==
 FmtSet(f) ==
   CASE f = "date"      -> {"2020-01-02", "0001-01-01"}
     [] f = "date-time" -> {"2020-01-02T03:04:05Z", "0001-01-01T00:00:00Z"}
-    [] f = "uuid"      -> {}
+    [] f = "uuid"      -> {"a0eebc99-9c0b-4ef8-bb6d-6bb9bd380a11"}
     [] f = "email"     -> {}
     [] f = "hostname"  -> {"a", "ab", "abc", "abcd", "b", "ba", "7"} \ {"7"} \* measured, see calibration
     [] OTHER           -> StrU
@@ -130,6 +130,8 @@ Valid(defs, s0, v) ==
        /\ CountOK(s, Len(Val(v)))
        /\ Get(s, "uniqueItems", FALSE) => Distinct(Val(v))
        /\ Has(s, "items") => \A i \in DOMAIN Val(v) : Valid(defs, s.items, Val(v)[i])
+       \* tuple typing: position i is validated by itemsTuple[i]; further items are free (additionalItems absent)
+       /\ Has(s, "itemsTuple") => \A i \in (DOMAIN Val(v)) \cap (DOMAIN s.itemsTuple) : Valid(defs, s.itemsTuple[i], Val(v)[i])
   /\ Tag(v) = "obj" =>
        /\ \A r \in Required(s) : r \in DOMAIN Val(v)
        /\ PropCountOK(s, Cardinality(DOMAIN Val(v)))
@@ -145,6 +147,20 @@ Valid(defs, s0, v) ==
 (* required one that is readOnly / has a default / is x-nullable:false -   *)
 (* may be treated as absent; JSON null is a proxy for unset.               *)
 (***************************************************************************)
+\* properties and required sets through allOf members (used by the zero-value latitude and by C05)
+RECURSIVE AllProps(_, _)
+AllProps(defs, s0) ==
+  LET s == Deref(defs, s0)
+      own == Props(s)
+      mem == IF Has(s, "allOf") THEN {AllProps(defs, s.allOf[i]) : i \in DOMAIN s.allOf} ELSE {}
+      names == DOMAIN own \cup UNION {DOMAIN m : m \in mem}
+  IN [k \in names |-> IF k \in DOMAIN own THEN own[k] ELSE (CHOOSE m \in mem : k \in DOMAIN m)[k]]
+
+RECURSIVE AllRequired(_, _)
+AllRequired(defs, s0) ==
+  LET s == Deref(defs, s0) IN
+  Required(s) \cup (IF Has(s, "allOf") THEN UNION {AllRequired(defs, s.allOf[i]) : i \in DOMAIN s.allOf} ELSE {})
+
 ZeroOf(ty) ==
   CASE ty = "integer" -> Num(0)
     [] ty = "number"  -> Num(0)
@@ -155,9 +171,9 @@ ZeroOf(ty) ==
 IsZeroFor(s, v) == Has(s, "type") /\ s.type \in {"integer", "number", "string", "boolean"} /\ v = ZeroOf(s.type)
 
 ZeroEligible(defs, s, k, v) ==
-  LET p == Deref(defs, Props(s)[k]) IN
+  LET p == Deref(defs, AllProps(defs, s)[k]) IN
   /\ \/ IsZeroFor(p, v) \/ IsNull(v)
-  /\ \/ k \notin Required(s)
+  /\ \/ k \notin AllRequired(defs, s)
      \/ Get(p, "readOnly", FALSE) \/ Has(p, "default") \/ (Has(p, "x-nullable") /\ ~p["x-nullable"])
      \/ IsNull(v)
 
@@ -166,11 +182,12 @@ ZeroEligible(defs, s, k, v) ==
 RECURSIVE Erasures(_, _, _, _)
 Erasures(defs, s0, d, depth) ==
   LET s == Deref(defs, s0) IN
-  IF Tag(d) # "obj" \/ depth = 0 \/ ~Has(s, "properties") THEN {d}
+  IF Tag(d) # "obj" \/ depth = 0 \/ DOMAIN AllProps(defs, s) = {} THEN {d}
   ELSE
     LET ks   == DOMAIN Val(d)
-        elig == {k \in ks : k \in DOMAIN Props(s) /\ ZeroEligible(defs, s, k, Val(d)[k])}
-        Sub(k) == IF k \in DOMAIN Props(s) THEN Erasures(defs, Props(s)[k], Val(d)[k], depth - 1) ELSE {Val(d)[k]}
+        ps   == AllProps(defs, s)
+        elig == {k \in ks : k \in DOMAIN ps /\ ZeroEligible(defs, s, k, Val(d)[k])}
+        Sub(k) == IF k \in DOMAIN ps THEN Erasures(defs, ps[k], Val(d)[k], depth - 1) ELSE {Val(d)[k]}
     IN UNION { { Obj(f) : f \in { g \in [ks \ drop -> UNION {Sub(k) : k \in ks}] :
                                    \A k \in ks \ drop : g[k] \in Sub(k) } }
                : drop \in SUBSET elig }
@@ -198,6 +215,7 @@ ValidModel(defs, s0, v) ==
        /\ CountOK(s, Len(Val(v)))
        /\ Get(s, "uniqueItems", FALSE) => Distinct(Val(v))
        /\ Has(s, "items") => \A i \in DOMAIN Val(v) : ValidModel(defs, s.items, Val(v)[i])
+       /\ Has(s, "itemsTuple") => \A i \in (DOMAIN Val(v)) \cap (DOMAIN s.itemsTuple) : ValidModel(defs, s.itemsTuple[i], Val(v)[i])
   /\ Tag(v) = "obj" =>
        /\ \A r \in Required(s) : r \in DOMAIN Val(v)
        /\ PropCountOK(s, Cardinality(DOMAIN Val(v)))
@@ -215,19 +233,6 @@ AllowedVerdicts(defs, s, d) ==
 (***************************************************************************)
 (* C05: what a decode/encode round trip may change.                        *)
 (***************************************************************************)
-RECURSIVE AllProps(_, _)
-AllProps(defs, s0) ==
-  LET s == Deref(defs, s0)
-      own == Props(s)
-      mem == IF Has(s, "allOf") THEN {AllProps(defs, s.allOf[i]) : i \in DOMAIN s.allOf} ELSE {}
-      names == DOMAIN own \cup UNION {DOMAIN m : m \in mem}
-  IN [k \in names |-> IF k \in DOMAIN own THEN own[k] ELSE (CHOOSE m \in mem : k \in DOMAIN m)[k]]
-
-RECURSIVE AllRequired(_, _)
-AllRequired(defs, s0) ==
-  LET s == Deref(defs, s0) IN
-  Required(s) \cup (IF Has(s, "allOf") THEN UNION {AllRequired(defs, s.allOf[i]) : i \in DOMAIN s.allOf} ELSE {})
-
 RECURSIVE AddlSchema(_, _)
 \* the schema governing undeclared properties, [none |-> TRUE] when there is none
 AddlSchema(defs, s0) ==
@@ -248,7 +253,11 @@ IsArraySchema(defs, s0) == LET s == Deref(defs, s0) IN Has(s, "type") /\ s.type 
 
 RECURSIVE RoundTripAllowed(_, _, _, _)
 RoundTripAllowed(defs, s0, d, o) ==
-  LET s == Deref(defs, s0) IN
+  LET sb == Deref(defs, s0)
+      \* polymorphism: a value of a base type is compared through the subtype its discriminator names
+      s == IF Tag(d) = "obj" /\ Has(sb, "discriminator") /\ sb.discriminator \in DOMAIN Val(d)
+              /\ Tag(Val(d)[sb.discriminator]) = "str" /\ Val(Val(d)[sb.discriminator]) \in DOMAIN defs
+           THEN defs[Val(Val(d)[sb.discriminator])] ELSE sb IN
   IF Tag(d) = "obj" THEN
     /\ Tag(o) = "obj"
     /\ LET props == AllProps(defs, s)
@@ -266,7 +275,9 @@ RoundTripAllowed(defs, s0, d, o) ==
   ELSE IF Tag(d) = "arr" THEN
     /\ Tag(o) = "arr" /\ Len(Val(o)) = Len(Val(d))
     /\ \A i \in DOMAIN Val(d) :
-         IF Has(s, "items") THEN RoundTripAllowed(defs, s.items, Val(d)[i], Val(o)[i]) ELSE Val(o)[i] = Val(d)[i]
+         IF Has(s, "items") THEN RoundTripAllowed(defs, s.items, Val(d)[i], Val(o)[i])
+         ELSE IF Has(s, "itemsTuple") /\ i \in DOMAIN s.itemsTuple THEN RoundTripAllowed(defs, s.itemsTuple[i], Val(d)[i], Val(o)[i])
+         ELSE Val(o)[i] = Val(d)[i]
   ELSE o = d
 
 RECURSIVE HasNumX(_)
